@@ -181,14 +181,14 @@ Proof.
   intros f l p Hl Hb. unfold parse_uri, ref_target. rewrite span_first_bad.
   set (k := first_bad uri_char l).
   assert (Hk : k <= length l) by apply first_bad_le.
-  unfold bind at 1. unfold pos at 1. cbn [apos tokrev pre length Nat.add].
+  unfold bind at 1. unfold pos at 1. cbn [tokrev pre length Nat.add].
   unfold bind at 1. rewrite (ok_s_uri E HE f (mkcur p [] l) Hb Hl). cbn [rest]. fold k.
   unfold adv. cbn [pre tokrev rest]. rewrite app_nil_r. clearbody k.
-  unfold bind at 1. unfold pos at 1. unfold apos. cbn [tokrev pre].
+  unfold bind at 1. unfold pos at 1. cbn [tokrev pre].
   rewrite rev_length, firstn_length, Nat.min_l by exact Hk.
   destruct (skipn k l) as [|b r'] eqn:Es; [reflexivity|].
   mstep. unfold SP. destruct (is 32 b) eqn:E32; [|reflexivity]. cbn [negb].
-  destruct (Nat.eqb_spec (k + p) p) as [E0|E0].
+  destruct (Nat.eqb_spec k 0) as [E0|E0].
   - assert (k = 0) by lia. replace (firstn k l) with (@nil N) by (rewrite H; reflexivity).
     reflexivity.
   - assert (Hne : null (firstn k l) = false).
